@@ -46,6 +46,12 @@ func main() {
 		}
 		v := checks.CompareModel(os.Args[2], in)
 		fmt.Printf("class=%s why=%s\nimpl : %s\nmodel: %s sig=%v compile=%q\n", v.Class, v.Why, v.Impl, univ.Canon(v.Model.Vals), v.Model.Sig, v.Model.CompileErr)
+	case "codes":
+		off := uint64(0)
+		if len(os.Args) > 3 {
+			off, _ = strconv.ParseUint(os.Args[3], 10, 32)
+		}
+		checks.DumpCodes(os.Args[2], uint32(off))
 	case "corpus":
 		checks.CorpusReport(len(os.Args) > 2)
 	case "list":
